@@ -1,0 +1,26 @@
+//go:build verif
+
+package kravatte
+
+import "hop.computer/hop/snp"
+
+// VerifState is a byte-level snapshot of a Kravatte object for the verification harness.
+type VerifState struct {
+	K, Kr, X, Y     [widthBytes]byte
+	Q               [widthBytes]byte
+	QueueOffsetBits int
+	Phase           Phase
+}
+
+// VerifDump exposes the internal state of kv (read-only) to the verification harness.
+func (kv *Kravatte) VerifDump() VerifState {
+	var s VerifState
+	snp.StateExtractBytes(&kv.k, s.K[:])
+	snp.StateExtractBytes(&kv.kr, s.Kr[:])
+	snp.StateExtractBytes(&kv.x, s.X[:])
+	snp.StateExtractBytes(&kv.y, s.Y[:])
+	s.Q = kv.q
+	s.QueueOffsetBits = kv.queueOffsetBits
+	s.Phase = kv.phase
+	return s
+}
